@@ -36,6 +36,36 @@ fn per_point<S: Scheme>(
     (all, outs)
 }
 
+/// Squeeze schedule of the overriding batch verifiers: for a group with the given bounded-flags,
+/// the index (within the group's squeezes) of each polynomial's value challenge and the group's
+/// total number of squeezed elements.
+fn squeeze_schedule(name: &str) -> Option<fn(&[bool]) -> (Vec<usize>, usize)> {
+    fn marlin(b: &[bool]) -> (Vec<usize>, usize) {
+        let mut idx = Vec::new();
+        let mut o = 0;
+        for x in b {
+            idx.push(o);
+            o += 1 + *x as usize;
+        }
+        (idx, o)
+    }
+    fn sonic(b: &[bool]) -> (Vec<usize>, usize) {
+        ((0..b.len()).collect(), b.len() + 1)
+    }
+    fn ipa(b: &[bool]) -> (Vec<usize>, usize) {
+        ((0..b.len()).map(|j| 2 * j).collect(), 2 * b.len() + 1)
+    }
+    if name.starts_with("marlin") || name.starts_with("pst13") {
+        Some(marlin)
+    } else if name.starts_with("sonic") {
+        Some(sonic)
+    } else if name == "ipa" {
+        Some(ipa)
+    } else {
+        None
+    }
+}
+
 fn case<S: Scheme>(ctx: &mut Ctx, rng: &mut ChaCha20Rng) {
     let thorough = ctx.is_thorough();
     let tx = match gen_tx::<S>(rng, thorough, 4) {
@@ -128,6 +158,69 @@ fn case<S: Scheme>(ctx: &mut Ctx, rng: &mut ChaCha20Rng) {
         ctx.count(&format!("cancelling:{}", kind), 1);
         ctx.check(o.is_accept() == refd, "batch-vs-single-mismatch", "batch_check", dj.clone(), || json!({"batch": o.json(), "per_point_all_accept": refd, "per_point": routs}));
         ctx.check(!o.is_accept(), "cancelling-errors-accepted", "batch_check", dj, || json!({"batch": o.json()}));
+    }
+    // (iii-b) challenge-aware errors cancelling ACROSS points: the per-polynomial opening challenges are
+    // public (squeezed from the caller's sponge), the verifier's batching randomizers are not. An error
+    // pair (d1, -d1*xi1/xi2) on unbounded polynomials of two different point labels makes the combined
+    // values of both points wrong by amounts that cancel iff the two points get the same randomizer.
+    if let Some(sched) = squeeze_schedule(S::NAME) {
+        let mut spv = tx.sponge();
+        let _ = batch_check::<S>(&tx.w.vk, &vcomms, &q.qs, &q.evals, &proof, &mut spv, 5);
+        let ch: Vec<FOf<S>> = spv.squeezed_fes();
+        // locate, per group, the challenge of each unbounded polynomial
+        let mut off = 0usize;
+        let mut slots: Vec<(usize, String, PtOf<S>, FOf<S>)> = Vec::new();
+        for (gi, g) in q.groups.iter().enumerate() {
+            let bounded: Vec<bool> = g.2.iter().map(|l| tx.c.comms[tx.idx_of(l)].degree_bound().is_some()).collect();
+            let (idxs, count) = sched(&bounded);
+            for (j, l) in g.2.iter().enumerate() {
+                if !bounded[j] && off + idxs[j] < ch.len() {
+                    slots.push((gi, l.clone(), g.1.clone(), ch[off + idxs[j]]));
+                }
+            }
+            off += count;
+        }
+        let mut done = 0;
+        if off == ch.len() {
+            for a in 0..slots.len() {
+                for b in 0..a {
+                    if done >= 3 || slots[a].0 == slots[b].0 || slots[a].3.is_zero() || slots[b].3.is_zero() {
+                        continue;
+                    }
+                    // two different point labels; if they share the point VALUE and the polynomial, the key coincides
+                    if slots[a].1 == slots[b].1 && slots[a].2 == slots[b].2 {
+                        continue;
+                    }
+                    let d1 = loop {
+                        let d = FOf::<S>::rand(rng);
+                        if !d.is_zero() {
+                            break d;
+                        }
+                    };
+                    let d2 = -d1 * slots[b].3 * ark_ff::Field::inverse(&slots[a].3).unwrap();
+                    let mut ev = q.evals.clone();
+                    *ev.get_mut(&(slots[b].1.clone(), slots[b].2.clone())).unwrap() += d1;
+                    *ev.get_mut(&(slots[a].1.clone(), slots[a].2.clone())).unwrap() += d2;
+                    // a value shared by two point labels is perturbed in both groups: skip those shapes
+                    let shared = q.groups.iter().filter(|g| g.1 == slots[a].2 && g.2.contains(&slots[a].1)).count() > 1
+                        || q.groups.iter().filter(|g| g.1 == slots[b].2 && g.2.contains(&slots[b].1)).count() > 1;
+                    if shared {
+                        continue;
+                    }
+                    let (refd, routs) = per_point::<S>(&tx, &q.groups, &ev, &proofs, &mut tx.sponge());
+                    let o = batch_check::<S>(&tx.w.vk, &vcomms, &q.qs, &ev, &proof, &mut tx.sponge(), rng.next_u64());
+                    let mut dj = txj.clone();
+                    dj["pair"] = json!([slots[b].1, slots[a].1]);
+                    dj["groups"] = json!([slots[b].0, slots[a].0]);
+                    ctx.count("cancelling:challenge-aware-across-points", 1);
+                    ctx.check(o.is_accept() == refd, "batch-vs-single-mismatch", "batch_check", dj.clone(), || json!({"batch": o.json(), "per_point_all_accept": refd, "per_point": routs}));
+                    ctx.check(!o.is_accept(), "cancelling-errors-accepted[challenge-aware-across-points]", "batch_check", dj, || json!({"batch": o.json()}));
+                    done += 1;
+                }
+            }
+        } else {
+            ctx.count("schedule-mismatch", 1);
+        }
     }
     // (iv) proof-list shape
     let n = proofs.len();
